@@ -165,6 +165,17 @@ def _gen_case(rng, tier):
         case['error_handlers'].append([code, rng.choice(['str', 'bytes', 'list', 'empty', 'str', 'bytes', 'list', 'empty', 'cycle'])])
     if case['before'] and case['path'] != 'miss' and rng.random() < 0.12:
         case['rewrite'] = rng.choice(['path', 'method'])
+    primed = case['result'].get('k') == 'read_body' and case.get('prime')
+    if case['before'] and not primed and rng.random() < 0.06:
+        case['oneshot'] = rng.randrange(case['before'])      # this before-request hook unregisters itself when it runs
+    if case['after'] and not primed and rng.random() < 0.06:
+        case['after_adds'] = rng.randrange(case['after'])     # this after-request hook registers one more hook when it runs
+    if rng.random() < 0.04:
+        # a header value that cannot be encoded when the header list is built (after the cast): still one 500, no escape
+        case['mutations'].append(['header', 'X-A', 'bad\udcffvalue'])
+    if case['method'] == 'HEAD' and case['result'].get('k') == 'seq' and case['result']['type'] == 'iter_close' \
+            and rng.random() < 0.3:
+        case['result']['close_raises'] = True     # the framework itself closes the iterable of a HEAD response
     if rng.random() < 0.5:
         sites = ['handler', 'gen_first_next']
         sites += [f'before:{j}' for j in range(case['before'])]
@@ -177,7 +188,8 @@ def _gen_case(rng, tier):
 
 
 def gen_case(rng, tier):
-    return twin.maybe_wrap(rng, _gen_case(rng, tier), 0.04, est_steps=700)
+    return twin.maybe_wrap(rng, _gen_case(rng, tier), 0.04, est_steps=700,
+                           ok=lambda c: c.get('oneshot') is None and c.get('after_adds') is None)
 
 
 def summarise(case):
@@ -208,6 +220,8 @@ class Ctx:
 class TrackedIter:
     """custom iterable with (optional) close; records pulls and closes"""
 
+    close_raises = False
+
     def __init__(self, ctx, items, has_close, label):
         self.ctx = ctx
         self.items = items
@@ -231,6 +245,8 @@ class TrackedIter:
     def _close(self):
         self.rec['closes'] += 1
         self.ctx.ev.append(('iter-close', self.rec['label']))
+        if self.close_raises:
+            raise RuntimeError('close() of the handler iterable failed')
 
 
 def tracked_gen(ctx, items, label):
@@ -341,7 +357,9 @@ def build(spec, ctx, label='r'):
             return tuple(items)
         if t == 'gen':
             return tracked_gen(ctx, items, label)
-        return TrackedIter(ctx, items, t == 'iter_close', label)
+        ti = TrackedIter(ctx, items, t == 'iter_close', label)
+        ti.close_raises = bool(spec.get('close_raises'))
+        return ti
     if k == 'file':
         return FileLike(ctx, unhx(spec['data']), spec['close'], spec.get('iterable'), label)
     if k == 'resp':
@@ -383,10 +401,13 @@ def setup_app(case):
     app = ombott.Ombott()
     resp_obj = app.response
 
+    bhooks = {}
     for j in range(case['before']):
         def bh(j=j):
             ctx = _cur()
             ctx.ev.append(('before', j))
+            if case.get('oneshot') == j:
+                app.remove_hook('before_request', bhooks[j])
             if j == 0 and case.get('rewrite'):
                 # a before-request hook that routing depends on (prefix stripping / method override)
                 if case['rewrite'] == 'path':
@@ -394,10 +415,13 @@ def setup_app(case):
                 else:
                     app.request['REQUEST_METHOD'] = case['method']
             ctx.maybe_fault(f'before:{j}')
+        bhooks[j] = bh
         app.add_hook('before_request', bh)
     for j in range(case['after']):
         def ah(j=j):
             _cur().ev.append(('after', j))
+            if case.get('after_adds') == j:
+                app.add_hook('after_request', lambda: _cur().ev.append(('after', 99)))
         app.add_hook('after_request', ah)
 
     def handler():
@@ -623,16 +647,23 @@ def shrink_candidates(case):
     if 'twin' in case:
         yield from twin.shrink_candidates(case, shrink_candidates)
         return
-    if case.get('rewrite'):
-        c = dict(case)
-        c.pop('rewrite')
-        yield c
+    for k in ('rewrite', 'oneshot', 'after_adds'):
+        if case.get(k) is not None:
+            c = dict(case)
+            c.pop(k)
+            yield c
     if case['fault'] is not None:
         yield dict(case, fault=None)
     if case['stop_after'] is not None:
         yield dict(case, stop_after=None)
     for k in ('before', 'after'):
         if case[k]:
+            if k == 'before' and (case.get('rewrite') or case.get('oneshot') is not None) and case[k] == 1:
+                continue
+            if k == 'before' and case.get('oneshot') is not None and case['oneshot'] >= case[k] - 1:
+                continue
+            if k == 'after' and case.get('after_adds') is not None and case['after_adds'] >= case[k] - 1:
+                continue
             c = dict(case)
             c[k] = case[k] - 1
             if c.get('fault') and c['fault']['at'].startswith('before:') and int(c['fault']['at'].split(':')[1]) >= c['before']:
@@ -685,7 +716,8 @@ def sweep_units(tier, root):
 def expand_unit(u):
     rng = random.Random(u['seed'])
     inner = _gen_case(rng, 'quick')
-    while any(k == 'cycle' for _, k in inner['error_handlers']):
+    while any(k == 'cycle' for _, k in inner['error_handlers']) or inner.get('oneshot') is not None \
+            or inner.get('after_adds') is not None:
         inner = _gen_case(rng, 'quick')
     box = []
     kw = dict(shared_bodyreq=False, before=lambda: (box.clear(), box.append(setup_app(inner))),
